@@ -19,6 +19,21 @@ The bijection statements (rank o unrank = id on [0,size), unrank o rank = id on 
 principle over the naturals is the only thing trusted there).  Everything is linear integer arithmetic + UF
 except the mixed-radix / u1u1 products (hints given as separate lemmas).
 
+How the pieces compose (per sector; [K] = kernel contract, proved from the source; (L) = lemma group):
+  nosymm  [K] unrank writes c'[j] = sh(r,n-1-j) mod 2; [K] rank returns val(c,n) in [0,pow2(n)).
+          (L) sh-bound, nosymm-rank-of-unrank: val(c',n) = r for 0 <= r < pow2(n);  nosymm-unrank-of-rank: the bits
+          written for r = val(c,n) are c's;  val-range: ranks in [0,pow2(n))  => bijection [0,2^n) <-> {0,1}^n.
+  z2      first n-1 bits: the nosymm statements at N = n-1;  (L) z2-parity-spec / z2-unranked-has-parity-p: unrank lands
+          in the parity-p sector;  z2-last-bit-recovered: the last bit of a parity-p string is restored  => size 2^(n-1).
+  u1      [K] build_pascal_table: pt = C;  [K] rank = R(c,n,k,n);  [K] unrank writes the greedy bits UB(r,n,k,j).
+          (L) u1-unrank-block (+exhausted), u1-rank-of-unrank: R(c',n) = r and weight(c') = k for 0 <= r < C(n,k);
+          u1-tail-bound, u1-rank-in-sector: 0 <= R(c,n) < C(n,k);  u1-unrank-of-rank: greedy bits of R(c,n) are c's.
+  u1u1    [K] rank = R(c[:na])*Db + R(c[na:]), unrank = u1-unrank(r div Db), u1-unrank(r mod Db), Db = C(nb,kb);
+          (L) u1u1-quotient-below / -rank-of-unrank / -unrank-of-rank / -rank-in-sector (digits unique)  => C(na,ka)*C(nb,kb).
+  mixed   [K] strides = ST, rank = S(c,strides,n), unrank digit j = (r div strides[j]) mod sizes[j] in [0,sizes[j]).
+          (L) mr-nested-division, mr-rank-of-unrank, mr-horner, mr-tail-bound, mr-unrank-of-rank, mr-rank-in-range
+          => bijection [0, prod sizes) <-> prod_j [0,sizes[j]).
+
 Second part of the module: fdx (finite-domain exhaustive) providers for the operator tables of builder.py.
 """
 
@@ -27,7 +42,7 @@ import time
 
 import z3
 
-from vf.pyvc import (And, Arr, Contract, I, If, Implies, Loop, NS, Not, Or, Unsupported, Z, is_z3, register, REGISTRY)
+from vf.pyvc import And, Arr, Contract, I, If, Implies, Loop, NS, Not, Or, Unsupported, Z, is_z3, register
 from vf import lemmas
 
 CC = "quimb/operator/configcore.py"
@@ -53,7 +68,15 @@ UK = z3.Function("UK", IntS, IntS, IntS, IntS, IntS)  # UK(r0, n, k, i)
 ST = z3.Function("ST", ArrS, IntS, IntS, IntS)  # ST(sizes, n, i) = prod_{j>i} sizes[j]
 Sm = z3.Function("S", ArrS, ArrS, IntS, IntS)  # S(c, strides, i) = sum_{j<i} c[j]*strides[j]
 shift = z3.Function("shift", ArrS, IntS, ArrS)  # view c[off:]  : shift(c,off)[j] = c[j+off]
+# products / quotients by symbolic terms in the u1u1 kernels are kept abstract inside the code proofs (linear queries);
+# their definitions  mulU(x,y) = x*y,  and for d >= 1:  x = d*divU(x,d) + modU(x,d), 0 <= modU(x,d) < d  (python // and %)
+# are instantiated only in the arithmetic lemmas
+mulU = z3.Function("mul", IntS, IntS, IntS)
+divU = z3.Function("div", IntS, IntS, IntS)
+modU = z3.Function("mod", IntS, IntS, IntS)
 
+G = z3.Int("g!skolem")  # arbitrary index (never constrained): statements proved at G hold at every index
+G2 = z3.Int("g2!skolem")
 J = z3.Int("j!q")  # bound variables of the quantified invariants
 J2 = z3.Int("k!q")
 INT64_MAX = 2 ** 63 - 1
@@ -77,14 +100,29 @@ def is_bit(x):
     return Or(x == 0, x == 1)
 
 
+IsBits = z3.Function("IsBits", ArrS, IntS, IntS, z3.BoolSort())
+PT_S = z3.ArraySort(IntS, ArrS)
+IsPascal = z3.Function("IsPascal", PT_S, IntS, IntS, z3.BoolSort())
+# The two array predicates are kept opaque inside the code proofs (all obligations stay quantifier free, so a failed
+# one comes with a model); their definitions
+#     IsBits(c,lo,hi)    :<=>  forall j.  lo <= j < hi  =>  c[j] in {0,1}
+#     IsPascal(pt,d1,d2) :<=>  forall a,b. 0 <= a < d1, 0 <= b < d2  =>  pt[a,b] = (C(a,b) if b <= a else 0)
+# are used (i) as instances at the indices the code reads (`bits_at`, `pascal_at`), (ii) unfolded where a contract has
+# to establish the predicate (build_pascal_table), (iii) in the lemmas bits-subrange / bits-shift.
+
+
 def bits(c, lo, hi):
     """c[j] in {0,1} for lo <= j < hi"""
+    return IsBits(c.a if isinstance(c, Arr) else c, lo, hi)
+
+
+def bits_forall(c, lo, hi):
     return forall(lambda j: Implies(And(lo <= j, j < hi), is_bit(sel(c, j))), lambda j: sel(c, j))
 
 
-def same_outside(c1, c0, lo, hi):
-    """frame: c1 and c0 agree at every index outside [lo, hi)"""
-    return forall(lambda j: Implies(Or(j < lo, j >= hi), sel(c1, j) == sel(c0, j)), lambda j: sel(c1, j))
+def bits_at(c, lo, hi, i):
+    """instance of the definition of IsBits at index i"""
+    return Implies(And(bits(c, lo, hi), lo <= i, i < hi), is_bit(sel(c, i)))
 
 
 # definitional instances -----------------------------------------------------------------------------------
@@ -144,7 +182,21 @@ def def_S(c, st, i):
     return [Sm(c, st, 0) == 0, Implies(i >= 0, Sm(c, st, i + 1) == Sm(c, st, i) + sel(c, i) * sel(st, i))]
 
 
-def def_shift(c, off):
+def def_mul(x, y):
+    return [mulU(x, y) == x * y]
+
+
+def def_divmod(x, d):
+    """floor division / modulo by a positive divisor (python semantics), written with the abstract product"""
+    return [Implies(d >= 1, And(x == mulU(d, divU(x, d)) + modU(x, d), 0 <= modU(x, d), modU(x, d) < d))]
+
+
+def def_shift(c, off, j):
+    """instance at j of the definition of the view c[off:]"""
+    return sel(shift(c, off), j) == sel(c, j + off)
+
+
+def def_shift_forall(c, off):
     return forall(lambda j: sel(shift(c, off), j) == sel(c, j + off), lambda j: sel(shift(c, off), j))
 
 
@@ -221,6 +273,14 @@ class Kernel(Contract):
             return (Z(a) + Z(b)) % 2
         raise Unsupported(f"bit operation {op} at line {line}")
 
+    def unmodified(self, a, cx, *names):
+        """(proof mode) the named array parameters hold their entry content at the arbitrary index G: read-only inputs"""
+        if cx.contract is not self:
+            return {}
+        return {f"{nm}-not-modified": (isinstance(cx.env.get(nm), Arr) and cx.env[nm].ndim == a[nm].ndim and
+                                       sel(cx.env[nm], *([G] if a[nm].ndim == 1 else [G, G2])) ==
+                                       sel(a[nm], *([G] if a[nm].ndim == 1 else [G, G2]))) for nm in names}
+
     def final(self, a, cx, name="flatconfig"):
         """the array parameter after the call: published value when used as callee, else the current local"""
         out = a.__dict__.get("_out") or {}
@@ -248,7 +308,7 @@ class RankNosymm(Kernel):
     """r = val(c, n)  (Horner), and 0 <= r < 2^n"""
 
     target = f"{CC}::flatconfig_to_rank_nosymm"
-    floor = 10
+    floor = 8
 
     def inputs(self, cx, case):
         n = cx.Int("n")
@@ -262,7 +322,7 @@ class RankNosymm(Kernel):
     def ensures(self, a, r, cx, case):
         c = a.flatconfig
         n = c.shape[0]
-        return {"rank==val": r == val(c.a, n), "in-range": And(0 <= r, r < pow2(n))}
+        return {"rank==val": r == val(c.a, n), "in-range": And(0 <= r, r < pow2(n)), **self.unmodified(a, cx, "flatconfig")}
 
     def fresh_result(self, cx, a, case):
         return cx.Int("rank")
@@ -271,10 +331,8 @@ class RankNosymm(Kernel):
                      inv=lambda v: {"horner": v.r == val(v.old.flatconfig.a, v._it0),
                                     "range": And(0 <= v.r, v.r < pow2(v._it0)),
                                     "it<=n": v._it0 <= v.old.flatconfig.shape[0]},
-                     facts=lambda v: def_val(v.old.flatconfig.a, v._it0) + def_pow2(v._it0) + pow2_bound(v._it0 + 1))}
-
-    def replay(self, model):
-        return _replay_rank("nosymm", model)
+                     facts=lambda v: def_val(v.old.flatconfig.a, v._it0) + def_pow2(v._it0) + pow2_bound(v._it0 + 1) +
+                     [bits_at(v.old.flatconfig, 0, v.old.flatconfig.shape[0], v._it0)])}
 
 
 class Unrank2(Kernel):
@@ -303,9 +361,6 @@ class Unrank2(Kernel):
     def frame_post(self, a, c1, c0, lo, hi):
         self._c1 = c1
         return self.at_all(a, lambda j: Implies(Or(j < lo, j >= hi), sel(c1, j) == sel(c0, j)))
-
-
-G = z3.Int("g!skolem")  # arbitrary index (never constrained)
 
 
 @register
@@ -342,9 +397,6 @@ class UnrankNosymm(Unrank2):
 
     loops = {0: Loop("for i in range(n - 1, -1, -1)", inv=_inv, facts=lambda v: def_sh(v.old.r, v._it0))}
 
-    def replay(self, model):
-        return _replay_unrank("nosymm", model)
-
 
 @register
 class RankToNosymm(Unrank2):
@@ -367,12 +419,123 @@ class RankToNosymm(Unrank2):
         return self.intvec(cx, "cfg", a.n)
 
 
-def _replay_rank(kind, model):  # pragma: no cover - only used on failed obligations
-    return dict(note="no concretisation for ranking kernels: the bounded drivers enumerate all ranks for n <= 12",
-                reproduced=False)
+def native_search(name):
+    """native counterexample search for a failed obligation of kernel `name`: the python text of the REAL kernel
+    (py_func) is run on every input of a small domain (n <= 6) and compared with an independent reference
+    (binary value / lexicographic position among the sector's strings / math.comb / itertools.product order).
+    SMT models of invariant obligations describe a havoc'd loop state, not an input, hence a search."""
+    import itertools as it
+    import math
+
+    import numpy as np
+    from quimb.operator import configcore as K
+
+    f = lambda nm: getattr(getattr(K, nm), "py_func", getattr(K, nm))  # noqa: E731
+    u8 = lambda bits_: np.array(bits_, dtype=np.uint8)  # noqa: E731
+    bad = lambda call, obs, exp: dict(call=call, observed=str(obs), expected=str(exp), reproduced=True)  # noqa: E731
+
+    def guarded(call, thunk, exp, conv=lambda x: x):
+        try:
+            obs = conv(thunk())
+        except Exception as e:  # noqa: BLE001
+            return bad(call, f"{type(e).__name__}: {e}", exp)
+        return None if obs == exp else bad(call, obs, exp)
+
+    tolist = lambda a: [int(x) for x in a]  # noqa: E731
+
+    def into(fn, n, *args):
+        c = np.full(n, 7, dtype=np.uint8)
+        r = f(fn)(c, *args)
+        return (r, tolist(c))
+
+    for n in range(0, 7):
+        strings = list(it.product((0, 1), repeat=n))
+        if name in ("flatconfig_to_rank_nosymm", "rank_into_flatconfig_nosymm", "rank_to_flatconfig_nosymm"):
+            for r, bs in enumerate(strings):
+                if name == "flatconfig_to_rank_nosymm":
+                    x = guarded(f"{name}({list(bs)})", lambda: f(name)(u8(bs)), r, int)
+                elif name == "rank_into_flatconfig_nosymm":
+                    x = guarded(f"{name}(c, {r}, {n})", lambda: into(name, n, r, n), (None, list(bs)))
+                else:
+                    x = guarded(f"{name}({r}, {n})", lambda: tolist(f(name)(r, n)), list(bs))
+                if x:
+                    return x
+        if name in ("flatconfig_to_rank_z2", "rank_into_flatconfig_z2", "rank_to_flatconfig_z2") and n >= 2:
+            for p_ in (0, 1):
+                sector = [bs for bs in strings if sum(bs) % 2 == p_]
+                for r, bs in enumerate(sector):
+                    if name == "flatconfig_to_rank_z2":
+                        x = guarded(f"{name}({list(bs)})", lambda: f(name)(u8(bs)), r, int)
+                    elif name == "rank_into_flatconfig_z2":
+                        x = guarded(f"{name}(c, {r}, {n}, {p_})", lambda: into(name, n, r, n, p_), (None, list(bs)))
+                    else:
+                        x = guarded(f"{name}({r}, {n}, {p_})", lambda: tolist(f(name)(r, n, p_)), list(bs))
+                    if x:
+                        return x
+        if name == "build_pascal_table":
+            exp = [[math.comb(a, b) for b in range(n + 1)] for a in range(n + 1)]
+            x = guarded(f"{name}({n})", lambda: [tolist(row) for row in f(name)(n)], exp)
+            if x:
+                return x
+        pt = np.array([[math.comb(a, b) for b in range(n + 2)] for a in range(n + 2)], dtype=np.int64)
+        if name in ("flatconfig_to_rank_u1_pascal", "rank_into_flatconfig_u1_pascal", "rank_to_flatconfig_u1_pascal"):
+            for k in range(n + 1):
+                sector = [bs for bs in strings if sum(bs) == k]
+                for r, bs in enumerate(sector):
+                    if name == "flatconfig_to_rank_u1_pascal":
+                        x = guarded(f"{name}({list(bs)}, {n}, {k}, pascal)", lambda: f(name)(u8(bs), n, k, pt), r, int)
+                    elif name == "rank_into_flatconfig_u1_pascal":
+                        x = guarded(f"{name}(c, {r}, {n}, {k}, pascal)", lambda: into(name, n, r, n, k, pt), (None, list(bs)))
+                    else:
+                        x = guarded(f"{name}({r}, {n}, {k}, pascal)", lambda: tolist(f(name)(r, n, k, pt)), list(bs))
+                    if x:
+                        return x
+        if name.endswith("u1u1_pascal"):
+            for na in range(n + 1):
+                nb = n - na
+                for ka in range(na + 1):
+                    for kb in range(nb + 1):
+                        sector = [bs for bs in strings if sum(bs[:na]) == ka and sum(bs[na:]) == kb]
+                        for r, bs in enumerate(sector):
+                            if name == "flatconfig_to_rank_u1u1_pascal":
+                                x = guarded(f"{name}({list(bs)}, {na}, {ka}, {nb}, {kb}, pascal)",
+                                            lambda: f(name)(u8(bs), na, ka, nb, kb, pt), r, int)
+                            elif name == "rank_into_flatconfig_u1u1_pascal":
+                                x = guarded(f"{name}(c, {r}, {na}, {ka}, {nb}, {kb}, pascal)",
+                                            lambda: into(name, n, r, na, ka, nb, kb, pt), (None, list(bs)))
+                            else:
+                                x = guarded(f"{name}({r}, {na}, {ka}, {nb}, {kb}, pascal)",
+                                            lambda: tolist(f(name)(r, na, ka, nb, kb, pt)), list(bs))
+                            if x:
+                                return x
+        if name in ("calculate_strides", "flatconfig_to_rank_mixed_radix_nosymm", "rank_into_flatconfig_mixed_radix_nosymm",
+                    "rank_to_flatconfig_mixed_radix_nosymm") and n <= 4:
+            for sizes in it.product((1, 2, 3), repeat=n):
+                strides = [math.prod(sizes[j + 1:]) for j in range(n)]
+                szs, sts = np.array(sizes, dtype=np.int64), np.array(strides, dtype=np.int64)
+                if name == "calculate_strides":
+                    x = guarded(f"{name}({list(sizes)})", lambda: tolist(f(name)(szs)), strides)
+                    if x:
+                        return x
+                    continue
+                for r, cfg in enumerate(it.product(*[range(s_) for s_ in sizes])):
+                    if name == "flatconfig_to_rank_mixed_radix_nosymm":
+                        x = guarded(f"{name}({list(cfg)}, {strides})", lambda: f(name)(u8(cfg), sts), r, int)
+                    elif name == "rank_into_flatconfig_mixed_radix_nosymm":
+                        x = guarded(f"{name}(c, {r}, {list(sizes)}, {strides})", lambda: into(name, n, r, szs, sts),
+                                    (None, list(cfg)))
+                    else:
+                        x = guarded(f"{name}({r}, {list(sizes)}, {strides})", lambda: tolist(f(name)(r, szs, sts)), list(cfg))
+                    if x:
+                        return x
+    return dict(note=f"no counterexample to the reference semantics of {name} among all inputs with n <= 6", reproduced=False)
 
 
-_replay_unrank = _replay_rank
+def _kernel_replay(self, model):
+    return native_search(self.target.split("::")[-1])
+
+
+Kernel.replay = _kernel_replay
 
 
 # ---------------------------------------------------------------------------------------------------------
@@ -497,7 +660,7 @@ class RankZ2(Kernel):
     """the rank ignores the last bit: r = val(c, n-1), 0 <= r < 2^(n-1)"""
 
     target = f"{CC}::flatconfig_to_rank_z2"
-    floor = 10
+    floor = 8
 
     def inputs(self, cx, case):
         n = cx.Int("n")
@@ -515,7 +678,8 @@ class RankZ2(Kernel):
     def ensures(self, a, r, cx, case):
         c = a.flatconfig
         nb = self.nb(c.shape[0])
-        return {"rank==val(n-1)": r == val(c.a, nb), "in-range": And(0 <= r, r < pow2(nb))}
+        return {"rank==val(n-1)": r == val(c.a, nb), "in-range": And(0 <= r, r < pow2(nb)),
+                **self.unmodified(a, cx, "flatconfig")}
 
     def fresh_result(self, cx, a, case):
         return cx.Int("rank")
@@ -524,7 +688,8 @@ class RankZ2(Kernel):
                      inv=lambda v: {"horner": v.r == val(v.old.flatconfig.a, v.i),
                                     "range": And(0 <= v.r, v.r < pow2(v.i)),
                                     "i-range": And(0 <= v.i, v.i <= RankZ2.nb(v.old.flatconfig.shape[0]))},
-                     facts=lambda v: def_val(v.old.flatconfig.a, v.i) + def_pow2(v.i) + pow2_bound(v.i + 1))}
+                     facts=lambda v: def_val(v.old.flatconfig.a, v.i) + def_pow2(v.i) + pow2_bound(v.i + 1) +
+                     [bits_at(v.old.flatconfig, 0, v.old.flatconfig.shape[0], v.i)])}
 
 
 @register
@@ -661,8 +826,17 @@ def C_zero_above(n, k):
 
 def pascal(pt, d1, d2):
     """the table predicate: pt[a,b] = C(a,b) on and below the diagonal, 0 above it   (0 <= a < d1, 0 <= b < d2)"""
+    return IsPascal(pt.a if isinstance(pt, Arr) else pt, d1, d2)
+
+
+def pascal_forall(pt, d1, d2):
     body = Implies(And(0 <= J, J < d1, 0 <= J2, J2 < d2), sel(pt, J, J2) == If(J2 <= J, C(J, J2), 0))
     return z3.ForAll([J, J2], body, patterns=[sel(pt, J, J2)])
+
+
+def pascal_at(pt, d1, d2, i, j):
+    """instance of the definition of IsPascal at cell (i,j)"""
+    return Implies(And(pascal(pt, d1, d2), 0 <= i, i < d1, 0 <= j, j < d2), sel(pt, i, j) == If(j <= i, C(i, j), 0))
 
 
 @register
@@ -682,7 +856,10 @@ class BuildPascalTable(Kernel):
         if not (isinstance(res, Arr) and res.ndim == 2):
             return {"returns-matrix": False}
         d = a.nmax + 1
-        return {"shape": And(res.shape[0] == d, res.shape[1] == d), "pascal": pascal(res, d, d)}
+        # proved in the unfolded (quantified) form; call sites get the predicate (definition of IsPascal)
+        proving = cx.contract is self
+        return {"shape": And(res.shape[0] == d, res.shape[1] == d),
+                "pascal": pascal_forall(res, d, d) if proving else pascal(res, d, d)}
 
     def fresh_result(self, cx, a, case):
         d = a.nmax + 1
@@ -725,6 +902,11 @@ class U1(Unrank2):
         d1, d2 = cx.Int("d1"), cx.Int("d2")
         return Arr(cx.Array("pt", IntS, IntS, IntS), (d1, d2))
 
+    def on_read(self, cx, node, base, idx):
+        pt = cx.old.get("pt")
+        if isinstance(pt, Arr) and base.a.eq(pt.a) and len(idx) == 2:
+            cx.assume(pascal_at(pt, pt.shape[0], pt.shape[1], I(idx[0]), I(idx[1])))
+
     def table_requires(self, pt, n, k):
         # "The Pascal triangle table of shape containing at least (n, k)": rows 0..n-1 and columns 0..k are read
         return {"pt-shape": And(pt.shape[0] >= n, pt.shape[1] >= k + 1), "pt-pascal": pascal(pt, pt.shape[0], pt.shape[1])}
@@ -747,7 +929,7 @@ class RankU1(U1):
                 "weight==k": KR(c.a, a.k, a.n) == 0, **self.table_requires(a.pt, a.n, a.k)}
 
     def ensures(self, a, r, cx, case):
-        return {"rank==R": r == Rk(a.flatconfig.a, a.n, a.k, a.n)}
+        return {"rank==R": r == Rk(a.flatconfig.a, a.n, a.k, a.n), **self.unmodified(a, cx, "flatconfig", "pt")}
 
     def fresh_result(self, cx, a, case):
         return cx.Int("rank")
@@ -765,7 +947,7 @@ class RankU1(U1):
         # definitions at i; remaining weight stays within [0,k]: instances of lemmas KR-lower / KR-upper
         # (bit string of total weight k)
         return def_R(c, o.n, o.k, i) + [Implies(And(0 <= i, i <= o.n), And(0 <= KR(c, o.k, i), KR(c, o.k, i) <= o.k)),
-                                        C_zero_above(o.n - 1 - i, KR(c, o.k, i))]
+                                        C_zero_above(o.n - 1 - i, KR(c, o.k, i)), bits_at(c, 0, o.n, i)]
 
     loops = {0: Loop("for (i, xi) in enumerate(flatconfig)", inv=_inv, facts=_facts)}
 
@@ -794,7 +976,7 @@ class UnrankU1(U1):
     def ensures(self, a, res, cx, case):
         c1 = self.final(a, cx)
         return {"greedy-bits": self.u1_post(a, c1), "frame": self.frame_post(a, c1, a.flatconfig, 0, a.n),
-                "returns-None": res is None}
+                "returns-None": res is None, **self.unmodified(a, cx, "pt")}
 
     def fresh_result(self, cx, a, case):
         self.publish(cx, a)
@@ -1013,7 +1195,7 @@ class CalculateStrides(Kernel):
         n = a.sizes.shape[0]
         return {"length": res.shape[0] == n,
                 "strides": forall(lambda j: Implies(And(0 <= j, j < n), sel(res, j) == ST(a.sizes.a, n, j)),
-                                  lambda j: sel(res, j))}
+                                  lambda j: sel(res, j)), **self.unmodified(a, cx, "sizes")}
 
     def fresh_result(self, cx, a, case):
         return self.intvec(cx, "strides", a.sizes.shape[0])
@@ -1047,7 +1229,8 @@ class RankMixedRadix(Kernel):
         return {"n>=0": n >= 0, "shape": a.strides.shape[0] == n}
 
     def ensures(self, a, r, cx, case):
-        return {"rank==S": r == Sm(a.flatconfig.a, a.strides.a, a.flatconfig.shape[0])}
+        return {"rank==S": r == Sm(a.flatconfig.a, a.strides.a, a.flatconfig.shape[0]),
+                **self.unmodified(a, cx, "flatconfig", "strides")}
 
     def fresh_result(self, cx, a, case):
         return cx.Int("rank")
@@ -1085,7 +1268,7 @@ class UnrankMixedRadix(Unrank2):
     def ensures(self, a, res, cx, case):
         c1 = self.final(a, cx)
         return {"digits": self.digits(a, c1), "frame": self.frame_post(a, c1, a.flatconfig, 0, a.sizes.shape[0]),
-                "returns-None": res is None}
+                "returns-None": res is None, **self.unmodified(a, cx, "sizes", "strides")}
 
     def fresh_result(self, cx, a, case):
         self.publish(cx, a)
@@ -1126,6 +1309,138 @@ class RankToMixedRadix(Unrank2):
         return self.intvec(cx, "cfg", a.sizes.shape[0])
 
 
+# --- lemmas: mixed radix (nonlinear: products of strides and sizes; z3's nonlinear arithmetic, no hints needed) ------
+Hm = z3.Function("H", ArrS, ArrS, IntS, IntS)  # Horner prefix value  H(c,sz,0) = c[0], H(c,sz,i+1) = H(c,sz,i)*sz[i+1] + c[i+1]
+_sz, _st = z3.Const("sz", ArrS), z3.Const("st", ArrS)
+_t = lambda i: ST(_sz, _n, i)  # noqa: E731
+_S = lambda i: Sm(_c, _st, i)  # noqa: E731
+_a, _b = z3.Ints("a b")
+
+
+def def_H(c, sz, i):
+    return [Hm(c, sz, 0) == sel(c, 0), Implies(i >= 0, Hm(c, sz, i + 1) == Hm(c, sz, i) * sel(sz, i + 1) + sel(c, i + 1))]
+
+
+def _digit(i):
+    """the digit written by unrank at i (strides = ST)"""
+    return sel(_c, i) == (_r0 / _t(i)) % sel(_sz, i)
+
+
+@L("mr-strides-positive:base")
+def lem_stp_b():
+    # strides of positive sizes are positive (downward induction from n-1)
+    return def_ST(_sz, _n, _i) + [_n >= 1], _t(_n - 1) >= 1
+
+
+@L("mr-strides-positive:step")
+def lem_stp_s():
+    return def_ST(_sz, _n, _i) + [0 <= _i, _i < _n - 1, sel(_sz, _i + 1) >= 1, _t(_i + 1) >= 1], _t(_i) >= 1
+
+
+@L("mr-nested-division")
+def lem_nested_div():
+    return [_a >= 1, _b >= 1, _r0 >= 0], (_r0 / _a) / _b == _r0 / (_a * _b)
+
+
+@L("mr-rank-of-unrank:base")
+def lem_mr_ru_b():
+    # F(i): S(c,st,i+1) == (r div t(i)) * t(i)   for c the unranked digits, st[i] = t(i) = ST(sz,n,i), 0 <= r < t(0)*sz[0]
+    return (def_S(_c, _st, 0) + [_n >= 1, sel(_st, 0) == _t(0), _t(0) >= 1, sel(_sz, 0) >= 1, 0 <= _r0,
+                                 _r0 < _t(0) * sel(_sz, 0), _digit(0)]), _S(1) == (_r0 / _t(0)) * _t(0)
+
+
+@L("mr-rank-of-unrank:step")
+def lem_mr_ru_s():
+    # uses mr-nested-division at (t(i+1), sz[i+1]) and the stride recurrence
+    T1, s = _t(_i + 1), sel(_sz, _i + 1)
+    return (def_S(_c, _st, _i + 1) + def_ST(_sz, _n, _i) +
+            [0 <= _i, _i < _n - 1, sel(_st, _i + 1) == T1, T1 >= 1, s >= 1, 0 <= _r0, _digit(_i + 1),
+             (_r0 / T1) / s == _r0 / (T1 * s), _S(_i + 1) == (_r0 / _t(_i)) * _t(_i)]), \
+        _S(_i + 2) == (_r0 / T1) * T1
+
+
+@L("mr-rank-of-unrank:conclusion")
+def lem_mr_ru_c():
+    return def_ST(_sz, _n, _i) + [_n >= 1, _S(_n) == (_r0 / _t(_n - 1)) * _t(_n - 1)], _S(_n) == _r0
+
+
+def _digits_ok(i):
+    return And(0 <= sel(_c, i), sel(_c, i) < sel(_sz, i))
+
+
+@L("mr-horner:base")
+def lem_mr_h_b():
+    # G(i): S(c,st,i+1) == H(c,sz,i) * t(i)      for any digit array, st[i] = t(i)
+    return def_S(_c, _st, 0) + def_H(_c, _sz, _i) + [sel(_st, 0) == _t(0)], _S(1) == Hm(_c, _sz, 0) * _t(0)
+
+
+@L("mr-horner:step")
+def lem_mr_h_s():
+    return (def_S(_c, _st, _i + 1) + def_H(_c, _sz, _i) + def_ST(_sz, _n, _i) +
+            [0 <= _i, _i < _n - 1, sel(_st, _i + 1) == _t(_i + 1), _S(_i + 1) == Hm(_c, _sz, _i) * _t(_i)]), \
+        _S(_i + 2) == Hm(_c, _sz, _i + 1) * _t(_i + 1)
+
+
+def _tailmr(i):
+    return And(0 <= _S(_n) - _S(i + 1), _S(_n) - _S(i + 1) < _t(i))
+
+
+@L("mr-tail-bound:base")
+def lem_mr_t_b():
+    # TL(i): 0 <= S(n) - S(i+1) < t(i)   for digits 0 <= c[j] < sz[j]   (downward induction from i = n-1)
+    return def_ST(_sz, _n, _i) + [_n >= 1], _tailmr(_n - 1)
+
+
+@L("mr-tail-bound:step")
+def lem_mr_t_s():
+    return (def_S(_c, _st, _i + 1) + def_ST(_sz, _n, _i) +
+            [0 <= _i, _i < _n - 1, sel(_st, _i + 1) == _t(_i + 1), _t(_i + 1) >= 1, _digits_ok(_i + 1), _tailmr(_i + 1)]), \
+        _tailmr(_i)
+
+
+_h, _hp, _tt, _tl, _ss, _cc, _d = z3.Ints("h hp t tl s cc d")
+
+
+@L("mr-quotient-unique")
+def lem_mr_qu():
+    # r = h*t + tail with 0 <= tail < t  =>  r div t = h
+    return [_tt >= 1, _r0 == _h * _tt + _tl, 0 <= _tl, _tl < _tt], _r0 / _tt == _h
+
+
+@L("mr-mul-sign-hints")
+def lem_mr_sign():
+    return [_ss >= 1], And(Implies(_d >= 1, _d * _ss >= _ss), Implies(_d <= -1, _d * _ss <= -_ss))
+
+
+@L("mr-last-digit")
+def lem_mr_ld():
+    # h = hp*s + c with 0 <= c < s  =>  h mod s = c        (hints: mr-mul-sign-hints at d = h div s - hp)
+    return [_ss >= 1, _h == _hp * _ss + _cc, 0 <= _cc, _cc < _ss, _d == _h / _ss - _hp, _d * _ss == (_h / _ss) * _ss - _hp * _ss,
+            Implies(_d >= 1, _d * _ss >= _ss), Implies(_d <= -1, _d * _ss <= -_ss)], _h % _ss == _cc
+
+
+@L("mr-unrank-of-rank")
+def lem_mr_ur():
+    # r = S(n) = H(i)*t(i) + tail, 0 <= tail < t(i)  =>  r div t(i) = H(i) (mr-quotient-unique), and H(i) mod sz[i] = c[i]
+    # (mr-last-digit with the Horner recurrence; H(0) = c[0] < sz[0]): digit i of unrank(rank(c)) is c[i]
+    h = Hm(_c, _sz, _i)
+    return ([0 <= _i, _i < _n, _r0 == _S(_n), _S(_n) == h * _t(_i) + (_S(_n) - _S(_i + 1)),
+             _r0 / _t(_i) == h,  # mr-quotient-unique at (t(i), h, tail)
+             h % sel(_sz, _i) == sel(_c, _i)]), (_r0 / _t(_i)) % sel(_sz, _i) == sel(_c, _i)
+
+
+@L("mr-unrank-of-rank:digit0")
+def lem_mr_ur0():
+    return def_H(_c, _sz, _i) + [sel(_sz, 0) >= 1, _digits_ok(0)], Hm(_c, _sz, 0) % sel(_sz, 0) == sel(_c, 0)
+
+
+@L("mr-rank-in-range")
+def lem_mr_range():
+    # 0 <= S(n) < t(0)*sz[0] = prod sizes       (G(0), TL(0))
+    return ([_n >= 1, _t(0) >= 1, _digits_ok(0), _S(1) == Hm(_c, _sz, 0) * _t(0), Hm(_c, _sz, 0) == sel(_c, 0), _tailmr(0)]), \
+        And(0 <= _S(_n), _S(_n) < _t(0) * sel(_sz, 0))
+
+
 # ---------------------------------------------------------------------------------------------------------
 # U1 x U1:  [0, C(na,ka)*C(nb,kb))  <->  weight-ka strings on the first na sites  x  weight-kb on the last nb
 # View model: flatconfig[:na] is the same array with length na; flatconfig[na:] is shift(c, na) with
@@ -1135,6 +1450,8 @@ class RankToMixedRadix(Unrank2):
 
 
 class U1U1(U1):
+    nonlinear_hooks = True  # engine: products / quotients of symbolic terms go through __nlmul__ / __nldivmod__
+
     def table_requires2(self, a):
         pt = a.pt
         mx = If(a.na >= a.nb, a.na, a.nb)
@@ -1152,6 +1469,13 @@ class U1U1(U1):
         return [G, G - cx.old.na]
 
     def call(self, cx, name, args, kwargs, node):
+        if name == "__nlmul__":
+            return mulU(args[0], args[1])
+        if name == "__nldivmod__":
+            x, d = args
+            for f in def_divmod(x, d):
+                cx.assume(f)
+            return divU(x, d), modU(x, d)
         if name == "__getslice__":
             base, lo, hi, st = args
             if not (isinstance(base, Arr) and base.ndim == 1 and st is None):
@@ -1159,11 +1483,17 @@ class U1U1(U1):
             n = base.shape[0]
             if lo is None and hi is not None:
                 cx.oblige(f"slice@{node.lineno}:0<=stop<=len", "safety", And(0 <= Z(hi), Z(hi) <= n), node.lineno)
+                # instance of lemma bits-subrange
+                cx.assume(Implies(And(bits(base, 0, n), 0 <= Z(hi), Z(hi) <= n), bits(base, 0, Z(hi))))
                 return Arr(base.a, (hi,))
             if hi is None and lo is not None:
                 cx.oblige(f"slice@{node.lineno}:0<=start<=len", "safety", And(0 <= Z(lo), Z(lo) <= n), node.lineno)
-                cx.assume(def_shift(base.a, Z(lo)))  # definition of the view
-                return Arr(shift(base.a, Z(lo)), (n - lo,))
+                view = Arr(shift(base.a, Z(lo)), (n - lo,))
+                for j in self.instances(cx):  # definition of the view, at the indices of interest
+                    cx.assume(def_shift(base.a, Z(lo), j))
+                # instance of lemma bits-shift
+                cx.assume(Implies(And(bits(base, 0, n), 0 <= Z(lo), Z(lo) <= n), bits(view, 0, n - lo)))
+                return view
             return NotImplemented
         if name == "__writeback__":
             argnode, new, oldview = args
@@ -1208,7 +1538,8 @@ class RankU1U1(U1U1):
 
     def ensures(self, a, r, cx, case):
         c = a.flatconfig.a
-        return {"rank==Ra*Db+Rb": r == Rk(c, a.na, a.ka, a.na) * C(a.nb, a.kb) + Rk(shift(c, a.na), a.nb, a.kb, a.nb)}
+        return {"rank==Ra*Db+Rb": r == mulU(Rk(c, a.na, a.ka, a.na), C(a.nb, a.kb)) + Rk(shift(c, a.na), a.nb, a.kb, a.nb),
+                **self.unmodified(a, cx, "flatconfig", "pt")}
 
     def fresh_result(self, cx, a, case):
         return cx.Int("rank")
@@ -1228,11 +1559,11 @@ class UnrankU1U1(U1U1):
 
     def requires(self, a, case):
         return {**self.sector_requires(a), "shape": a.flatconfig.shape[0] == a.na + a.nb,
-                "rank-in-sector": And(0 <= a.r, a.r < C(a.na, a.ka) * C(a.nb, a.kb)), **self.table_requires2(a)}
+                "rank-in-sector": And(0 <= a.r, a.r < mulU(C(a.na, a.ka), C(a.nb, a.kb))), **self.table_requires2(a)}
 
     def u1u1_post(self, a, c1):
         Db = C(a.nb, a.kb)
-        ra, rb = a.r / Db, a.r % Db
+        ra, rb = divU(a.r, Db), modU(a.r, Db)
         return self.at_all(a, lambda j: And(
             Implies(And(0 <= j, j < a.na), sel(c1, j) == If(UBit(ra, a.na, a.ka, j), 1, 0)),
             Implies(And(a.na <= j, j < a.na + a.nb), sel(c1, j) == If(UBit(rb, a.nb, a.kb, j - a.na), 1, 0))))
@@ -1240,20 +1571,22 @@ class UnrankU1U1(U1U1):
     def ensures(self, a, res, cx, case):
         c1 = self.final(a, cx)
         return {"greedy-bits-both-sections": self.u1u1_post(a, c1),
-                "frame": self.frame_post(a, c1, a.flatconfig, 0, a.na + a.nb), "returns-None": res is None}
+                "frame": self.frame_post(a, c1, a.flatconfig, 0, a.na + a.nb), "returns-None": res is None,
+                **self.unmodified(a, cx, "pt")}
 
     def fresh_result(self, cx, a, case):
         self.publish(cx, a)
         return None
 
-    def call(self, cx, name, args, kwargs, node):
-        if name == "rank_into_flatconfig_u1_pascal":
-            o = cx.old
-            Db, Ca = C(o.nb, o.kb), C(o.na, o.ka)
-            # instances of lemmas C-nonneg (Db >= 0) and quotient-below (r < Ca*Db, Db >= 1  =>  r div Db < Ca)
-            cx.assume(Db >= 0)
-            cx.assume(Implies(And(Db >= 1, 0 <= o.r, o.r < Ca * Db), o.r / Db < Ca))
-        return super().call(cx, name, args, kwargs, node)
+    def on_read(self, cx, node, base, idx):
+        # reading Db = pt[nb, kb]: from here on the sector sizes are known to be positive and the quotient in range:
+        # instances of lemmas C-nonneg, u1u1-sector-nonempty and u1u1-quotient-below
+        super().on_read(cx, node, base, idx)
+        o = cx.old
+        Db, Ca = C(o.nb, o.kb), C(o.na, o.ka)
+        cx.assume(And(Db >= 0, Ca >= 0))
+        cx.assume(Implies(And(Db >= 0, Ca >= 0, 0 <= o.r, o.r < mulU(Ca, Db)), And(Db >= 1, Ca >= 1)))
+        cx.assume(Implies(And(Db >= 1, 0 <= o.r, o.r < mulU(Ca, Db)), And(0 <= divU(o.r, Db), divU(o.r, Db) < Ca)))
 
 
 @register
@@ -1268,7 +1601,7 @@ class RankToU1U1(U1U1):
         return [G]
 
     def requires(self, a, case):
-        return {**self.sector_requires(a), "rank-in-sector": And(0 <= a.r, a.r < C(a.na, a.ka) * C(a.nb, a.kb)),
+        return {**self.sector_requires(a), "rank-in-sector": And(0 <= a.r, a.r < mulU(C(a.na, a.ka), C(a.nb, a.kb))),
                 **self.table_requires2(a)}
 
     def ensures(self, a, res, cx, case):
@@ -1280,40 +1613,180 @@ class RankToU1U1(U1U1):
         return self.intvec(cx, "cfg", a.na + a.nb)
 
 
-# --- lemmas: u1u1 composition (C16 digits-unique style; the products are the only nonlinear terms) ---------------
+# --- lemmas: views (definitions of IsBits and of shift unfolded) -------------------------------------------------
+_lo, _hi, _lo2, _hi2, _off = z3.Ints("lo hi lo2 hi2 off")
+
+
+@L("bits-subrange")
+def lem_bits_sub():
+    return [IsBits(_c, _lo, _hi) == bits_forall(_c, _lo, _hi), IsBits(_c, _lo2, _hi2) == bits_forall(_c, _lo2, _hi2),
+            _lo <= _lo2, _hi2 <= _hi, IsBits(_c, _lo, _hi)], IsBits(_c, _lo2, _hi2)
+
+
+@L("bits-shift")
+def lem_bits_shift():
+    v = shift(_c, _off)
+    return [IsBits(_c, 0, _n) == bits_forall(_c, 0, _n), IsBits(v, 0, _m) == bits_forall(v, 0, _m),
+            def_shift_forall(_c, _off), 0 <= _off, _off + _m <= _n, IsBits(_c, 0, _n)], IsBits(v, 0, _m)
+
+
+# --- lemmas: u1u1 composition (C16 digits-unique style); the definitions of mul / div / mod enter here ------------
 _D, _Ca, _ra, _rb, _q = z3.Ints("D Ca ra rb q")
+
+
+@L("u1u1-sector-nonempty")
+def lem_nonempty():
+    return def_mul(_Ca, _D) + [_Ca >= 0, _D >= 0, 0 <= _r0, _r0 < mulU(_Ca, _D)], And(_Ca >= 1, _D >= 1)
 
 
 @L("u1u1-quotient-below")
 def lem_q_below():
-    # r < Ca*D, D >= 1  =>  r div D < Ca       (q = r div D characterised by D*q <= r < D*q + D)
-    return [_D >= 1, 0 <= _r0, _r0 < _Ca * _D, _D * _q <= _r0, _r0 < _D * _q + _D, (_Ca - _q) * _D == _Ca * _D - _q * _D], _q < _Ca
+    # 0 <= r < Ca*D, D >= 1  =>  0 <= r div D < Ca
+    q = divU(_r0, _D)
+    return (def_mul(_Ca, _D) + def_mul(_D, q) + def_divmod(_r0, _D) +
+            [_D >= 1, 0 <= _r0, _r0 < mulU(_Ca, _D), (_Ca - q) * _D == _Ca * _D - _D * q, (-1 - q) * _D == -_D - _D * q]), \
+        And(0 <= q, q < _Ca)
 
 
 @L("u1u1-rank-of-unrank")
 def lem_u1u1_ru():
     # ra = r div D and rb = r mod D are recovered by the two u1 ranks (u1-rank-of-unrank), so ra*D + rb = r
-    return [_D >= 1, 0 <= _r0, _ra == _r0 / _D, _rb == _r0 % _D], _ra * _D + _rb == _r0
+    return (def_divmod(_r0, _D) + def_mul(_D, divU(_r0, _D)) + def_mul(divU(_r0, _D), _D) +
+            [_D >= 1, _ra == divU(_r0, _D), _rb == modU(_r0, _D)]), mulU(_ra, _D) + _rb == _r0
 
 
 @L("u1u1-unrank-of-rank")
 def lem_u1u1_ur():
     # digits are unique: (ra*D + rb) div D = ra and mod D = rb for 0 <= rb < D; the u1 lemmas then recover each section
-    x = _ra * _D + _rb
-    return [_D >= 1, 0 <= _rb, _rb < _D, _ra >= 0, _q == x / _D, _D * _q <= x, x < _D * _q + _D,
-            (_ra - _q) * _D == _ra * _D - _q * _D], And(x / _D == _ra, x % _D == _rb)
+    x = mulU(_ra, _D) + _rb
+    q = divU(x, _D)
+    return (def_divmod(x, _D) + def_mul(_ra, _D) + def_mul(_D, q) +
+            [_D >= 1, 0 <= _rb, _rb < _D, (_ra - q) * _D == _ra * _D - _D * q]), And(q == _ra, modU(x, _D) == _rb)
 
 
 @L("u1u1-rank-in-sector")
 def lem_u1u1_range():
     # 0 <= ra < Ca, 0 <= rb < D  =>  0 <= ra*D + rb < Ca*D : ranks lie in [0, C(na,ka)*C(nb,kb))
-    return [_D >= 1, 0 <= _ra, _ra < _Ca, 0 <= _rb, _rb < _D, (_Ca - 1 - _ra) * _D == _Ca * _D - _D - _ra * _D,
-            (_Ca - 1 - _ra) * _D >= 0, _ra * _D >= 0], And(0 <= _ra * _D + _rb, _ra * _D + _rb < _Ca * _D)
+    return (def_mul(_ra, _D) + def_mul(_Ca, _D) +
+            [_D >= 1, 0 <= _ra, _ra < _Ca, 0 <= _rb, _rb < _D, (_Ca - 1 - _ra) * _D == _Ca * _D - _D - _ra * _D,
+             (_Ca - 1 - _ra) * _D >= 0, _ra * _D >= 0]), And(0 <= mulU(_ra, _D) + _rb, mulU(_ra, _D) + _rb < mulU(_Ca, _D))
 
 
 @L("u1u1-product-sign-hint")
 def lem_prod_sign():
     return [_ra >= 0, _D >= 0], _ra * _D >= 0
+
+
+# ---------------------------------------------------------------------------------------------------------
+# _check_next_coupled_term: index arithmetic over the stacked term / operator arrays, frame of the coupled config
+# ---------------------------------------------------------------------------------------------------------
+SO = z3.Function("SO", ArrS, IntS, IntS, IntS)  # SO(sizes_op, a, k) = sum_{d<k} sizes_op[a+d]
+Touched = z3.Function("Touched", ArrS, IntS, IntS, IntS, z3.BoolSort())  # some regs[a+d], d < k, equals g
+TermOK = z3.Function("TermOK", ArrS, ArrS, IntS, IntS, IntS, z3.BoolSort())
+# TermOK(sizes_op, regs, a, size_term, n) :<=> forall ia. a <= ia < a+size_term => sizes_op[ia] in {1,2} /\ 0 <= regs[ia] < n
+# (every operator of the table has one or two entries and acts on a register of the configuration); used by instances
+
+
+def def_SO(so, a, k):
+    return [SO(so, a, 0) == 0, Implies(k >= 0, SO(so, a, k + 1) == SO(so, a, k) + sel(so, a + k))]
+
+
+def def_Touched(regs, a, g, k):
+    return [Not(Touched(regs, a, g, 0)),
+            Implies(k >= 0, Touched(regs, a, g, k + 1) == Or(Touched(regs, a, g, k), sel(regs, a + k) == g))]
+
+
+def termok_at(o, ia):
+    return Implies(And(TermOK(o.sizes_op.a, o.regs.a, o.a, o.size_term, o.n), o.a <= ia, ia < o.a + o.size_term),
+                   And(Or(sel(o.sizes_op, ia) == 1, sel(o.sizes_op, ia) == 2), 0 <= sel(o.regs, ia), sel(o.regs, ia) < o.n))
+
+
+@register
+class CheckNextCoupledTerm(Kernel):
+    """a' = a + size_term, b' = b + sum of sizes_op[a..a'), every subscript in bounds, and the coupled configuration bj
+    differs from bi at most on the term's registers regs[a..a')  (what it holds there / hij: bounded drivers)"""
+
+    target = f"{CC}::_check_next_coupled_term"
+    floor = 20
+
+    def inputs(self, cx, case):
+        n, NA, NB = cx.Int("n"), cx.Int("NA"), cx.Int("NB")
+        from vf.pyvc import V
+
+        return dict(a=cx.Int("a"), b=cx.Int("b"), n=n, bi=self.intvec(cx, "bi", n), bj=self.intvec(cx, "bj", n),
+                    size_term=cx.Int("size_term"), sizes_op=self.intvec(cx, "sizes_op", NA), regs=self.intvec(cx, "regs", NA),
+                    xis=self.intvec(cx, "xis", NB), xjs=self.intvec(cx, "xjs", NB),
+                    cijs=Arr(cx.Array("cijs", IntS, V), (NB,)))
+
+    def requires(self, a, case):
+        NA, NB = a.sizes_op.shape[0], a.xis.shape[0]
+        return {"n>=0": a.n >= 0, "config-bits": bits(a.bi, 0, a.n), "a,b>=0": And(a.a >= 0, a.b >= 0),
+                "size_term>=0": a.size_term >= 0, "term-in-stack": a.a + a.size_term <= NA,
+                "term-ok": TermOK(a.sizes_op.a, a.regs.a, a.a, a.size_term, a.n),
+                "entries-in-stack": a.b + SO(a.sizes_op.a, a.a, a.size_term) <= NB}
+
+    def ensures(self, a, res, cx, case):
+        if not (isinstance(res, tuple) and len(res) == 4):
+            return {"returns-4-tuple": False}
+        a2, b2, valid, hij = res
+        bj = cx.env["bj"]
+        return {"a-advances-by-size_term": a2 == a.a + a.size_term,
+                "b-advances-by-sum-of-sizes_op": b2 == a.b + SO(a.sizes_op.a, a.a, a.size_term),
+                "frame": Implies(And(0 <= G, G < a.n, Not(Touched(a.regs.a, a.a, G, a.size_term))), sel(bj, G) == sel(a.bi, G)),
+                "nothing-outside-config": Implies(Or(G < 0, G >= a.n), sel(bj, G) == sel(a.bj, G)),
+                **self.unmodified(a, cx, "bi", "sizes_op", "regs", "xis", "xjs", "cijs")}
+
+    def on_read(self, cx, node, base, idx):
+        o = cx.old
+        if base.a.eq(o.sizes_op.a) or base.a.eq(o.regs.a):
+            cx.assume(termok_at(o, I(idx[0])))
+        if base.a.eq(o.bi.a):
+            cx.assume(bits_at(o.bi, 0, o.n, I(idx[0])))
+
+    def _copy_inv(v):
+        o = v.old
+        return {"q-range": And(0 <= v.q, v.q <= o.n),
+                "copied": Implies(And(0 <= G, G < v.q), sel(v.bj, G) == sel(o.bi, G)),
+                "rest": Implies(Or(G < 0, G >= v.q), sel(v.bj, G) == sel(o.bj, G))}
+
+    def _term_inv(v):
+        o = v.old
+        so = o.sizes_op.a
+        return {"da-range": And(0 <= v.da, v.da <= o.size_term),
+                "b": And(v.b == o.b + SO(so, o.a, v.da), v.b >= o.b), "a-unchanged": v.a == o.a,
+                "frame": Implies(And(0 <= G, G < o.n, Not(Touched(o.regs.a, o.a, G, v.da))), sel(v.bj, G) == sel(o.bi, G)),
+                "outside": Implies(Or(G < 0, G >= o.n), sel(v.bj, G) == sel(o.bj, G))}
+
+    def _term_facts(v):
+        o = v.old
+        so = o.sizes_op.a
+        # definitions at da; SO is monotone for non-negative sizes: instance of lemma SO-monotone at da+1 <= size_term
+        return (def_SO(so, o.a, v.da) + def_Touched(o.regs.a, o.a, G, v.da) +
+                [Implies(And(TermOK(so, o.regs.a, o.a, o.size_term, o.n), 0 <= v.da + 1, v.da + 1 <= o.size_term),
+                         SO(so, o.a, v.da + 1) <= SO(so, o.a, o.size_term))])
+
+    @property
+    def loops(self):
+        from vf.pyvc import V
+
+        return {0: Loop("for q in range(n)", inv=CheckNextCoupledTerm._copy_inv),
+                1: Loop("for da in range(size_term)", inv=CheckNextCoupledTerm._term_inv,
+                        facts=CheckNextCoupledTerm._term_facts,
+                        retype={"hij": lambda cx: cx.Val("hij"), "valid": lambda cx: cx.Bool("valid")})}
+
+
+@L("SO-monotone:base")
+def lem_so_b():
+    so = z3.Const("so", ArrS)
+    return [], SO(so, _a, _i) <= SO(so, _a, _i)
+
+
+@L("SO-monotone:step")
+def lem_so_s():
+    # M(K): SO(a,i) <= SO(a,K) for i <= K, sizes >= 1 (TermOK instance at a+K)
+    so = z3.Const("so", ArrS)
+    return def_SO(so, _a, _k) + [0 <= _i, _i <= _k, sel(so, _a + _k) >= 1, SO(so, _a, _i) <= SO(so, _a, _k)], \
+        SO(so, _a, _i) <= SO(so, _a, _k + 1)
 
 
 # =========================================================================================================
@@ -1384,20 +1857,21 @@ def provider_simplify(tier):
             for coeff in FDX_COEFFS:
                 nseq += 1
                 call = f"simplify_single_site_ops({coeff!r}, {ops!r})"
+                args = dict(coeff=repr(coeff), ops=list(ops))
                 try:
                     c2, op = fn(coeff, ops)
                 except Exception as e:  # noqa: BLE001
-                    bad_prod.append(dict(call=call, raised=f"{type(e).__name__}: {e}"))
+                    bad_prod.append(dict(call=call, raised=f"{type(e).__name__}: {e}", **args))
                     continue
                 is_null = op is None
                 if is_null != vanishes or (is_null and c2 != 0):
                     bad_null.append(dict(call=call, returned=[_cstr(c2) if c2 is not None else None, op],
-                                         product_vanishes=bool(vanishes)))
+                                         product_vanishes=bool(vanishes), **args))
                     continue
                 if is_null:
                     continue
                 if op not in M:
-                    bad_prod.append(dict(call=call, returned=[_cstr(c2), op], reason="operator name not in the table"))
+                    bad_prod.append(dict(call=call, returned=[_cstr(c2), op], reason="operator name not in the table", **args))
                     continue
                 lhs, rhs = c2 * M[op], coeff * prod
                 if not np.allclose(lhs, rhs, rtol=0, atol=1e-12):
@@ -1406,13 +1880,51 @@ def provider_simplify(tier):
                     lam = rhs.flat[k] / M[op].flat[k]
                     prop = np.allclose(lam * M[op], rhs, rtol=0, atol=1e-12)
                     bad_prod.append(dict(call=call, returned=[_cstr(c2), op],
-                                         expected=[_cstr(lam), op] if prop else "product not proportional to the returned op"))
+                                         expected=[_cstr(lam), op] if prop else "product not proportional to the returned op",
+                                         **args))
         dom = f"{len(names)}^{L_} sequences x {len(FDX_COEFFS)} coefficients = {nseq} calls"
         out.append(_ob("simplify_single_site_ops", f"null-iff-product-vanishes[len={L_}]", not bad_null, t0,
                        model=dict(domain=dom, violations=len(bad_null), counterexample=bad_null[:1], more=bad_null[1:6])))
         out.append(_ob("simplify_single_site_ops", f"product-preserved[len={L_}]", not bad_prod, t0,
                        model=dict(domain=dom, violations=len(bad_prod), counterexample=bad_prod[:1], more=bad_prod[1:8])))
     return out
+
+
+@register
+class SimplifyFdxReplay(Contract):
+    """not an E1 contract: carries the native replay of a failed fdx obligation on simplify_single_site_ops
+    (the framework looks replay() up by function name)"""
+
+    target = f"{BD}::simplify_single_site_ops"
+    property_ids = (PID,)
+
+    def inputs(self, cx, case):
+        raise Unsupported("simplify_single_site_ops is checked by finite-domain exhaustive execution (provider_simplify), not by E1")
+
+    def replay(self, model):
+        import numpy as np
+        from quimb.operator import builder as B
+
+        ce = (model.get("counterexample") or [None])[0]
+        if not ce or "ops" not in ce:
+            return dict(note="no counterexample in the model", reproduced=False)
+        coeff, ops = complex(ce["coeff"].strip("()")), tuple(ce["ops"])
+        coeff = coeff.real if coeff.imag == 0 else coeff
+        M = textbook_mats()
+        prod = M[ops[0]]
+        for o in ops[1:]:
+            prod = prod @ M[o]
+        fn = getattr(B.simplify_single_site_ops, "__wrapped__", B.simplify_single_site_ops)
+        try:
+            c2, op = fn(coeff, ops)
+        except Exception as e:  # noqa: BLE001
+            return dict(call=ce["call"], observed=f"{type(e).__name__}: {e}", reproduced=True)
+        if op is None:
+            ok = not np.any(np.abs(prod) > 1e-12) and c2 == 0
+            return dict(call=ce["call"], observed=[str(c2), None], product=str(prod.tolist()), reproduced=not ok)
+        ok = op in M and np.allclose(c2 * M[op], coeff * prod, rtol=0, atol=1e-12)
+        return dict(call=ce["call"], observed=[_cstr(c2), op], observed_matrix=str((c2 * M[op]).tolist()) if op in M else None,
+                    reference_matrix=str((coeff * prod).tolist()), reproduced=not ok)
 
 
 def provider_pauli_decomp(tier):
